@@ -118,6 +118,12 @@ def run_property(prop, title, obligations, prog, tier, explanation, assumptions,
             lines.append(f"ANALYSIS-ERROR property={prop} obligation={ob.id} {ob.error.splitlines()[0]}")
             continue
         real = []
+        uniq, seen_keys = [], set()
+        for f in ob.findings:
+            if f.key(prop) not in seen_keys:
+                seen_keys.add(f.key(prop))
+                uniq.append(f)
+        ob.findings = uniq
         for f in ob.findings:
             if f.key(prop) in known_keys:
                 known_hits.append(f)
